@@ -1157,10 +1157,7 @@ def run_coal(case, ctx):
                 return
     wl = O.explicit_windows(spec, case["kind"], case["coarse"])
     sn, pn = case["span_normalise"], case["pair_normalise"]
-    if sn and "gap" in labs:
-        # span_normalise divides by the "non-missing" span; only asserted when no tree is empty
-        ctx.label("span_normalise_dropped_for_gap")
-        sn = False
+    ctx.label("span_normalise_with_gap", bool(sn and "gap" in labs))
     tw = case["time_windows"]
     if tw == "nodes":
         bins = list(range(n))
@@ -1217,7 +1214,8 @@ def run_coal(case, ctx):
     gf = undrop(call(fine), len(fine) - 1, True)
     ef = O.pair_coalescence_counts(spec, sets, full_idx, fine, bins, nb, sn, pn)
     ctx.close(gf[:, keep], ef[:, keep], "pair_coalescence_counts refined windows")
-    ctx.close(got[:, keep], O.combine_refinement(gf, fine, wl, sn)[:, keep], "pair_coalescence_counts refinement")
+    comb = O.combine_refinement_nonmissing(spec, gf, fine, wl) if sn else O.combine_refinement(gf, fine, wl, False)
+    ctx.close(got[:, keep], comb[:, keep], "pair_coalescence_counts refinement")
 
 
 # ------------------------------------------------------------------ (C) LdCalculator r2
